@@ -58,7 +58,7 @@ def run_lexer_hook(inputs, timeout=300):
     while start < len(inputs):
         inp = b"".join(x.hex().encode() + b"\n" for x in inputs[start:])
         try:
-            p = subprocess.run([hook], input=inp, stdout=subprocess.PIPE, stderr=subprocess.PIPE, timeout=timeout)
+            p = subprocess.run([hook], input=inp, stdout=subprocess.PIPE, stderr=subprocess.PIPE, timeout=timeout, preexec_fn=common.limit_mem())
             out, err = p.stdout, p.stderr.decode("utf8", "replace")
         except subprocess.TimeoutExpired as e:
             out, err = e.stdout or b"", "TIMEOUT"
@@ -322,7 +322,7 @@ def run_batch(reqs, nproc=None, timeout=120, hook=None, libs=None):
         while todo:
             inp = "".join(json.dumps(r) + "\n" for r in todo).encode()
             try:
-                p = subprocess.run([hook], input=inp, stdout=subprocess.PIPE, stderr=subprocess.PIPE, env=env, timeout=timeout)
+                p = subprocess.run([hook], input=inp, stdout=subprocess.PIPE, stderr=subprocess.PIPE, env=env, timeout=timeout, preexec_fn=common.limit_mem())
                 out = p.stdout; err = p.stderr.decode("utf8", "replace"); rc = p.returncode
             except subprocess.TimeoutExpired as e:
                 out = e.stdout or b""; err = "TIMEOUT"; rc = -9
@@ -717,7 +717,7 @@ def cli_case(work, idx, kind, files, mode, _retry=False):
     t0 = time.time()
     env_libs = common.impl().libs
     try:
-        p = subprocess.run([common.impl().ferret] + args, cwd=d, stdout=subprocess.PIPE, stderr=subprocess.PIPE, timeout=40 if _retry else 20,
+        p = subprocess.run([common.impl().ferret] + args, cwd=d, stdout=subprocess.PIPE, stderr=subprocess.PIPE, timeout=40 if _retry else 20, preexec_fn=common.limit_mem(),
                            env=dict(os.environ, NO_COLOR="1", FERRET_LIBS_PATH=env_libs))
         rc, so, se = p.returncode, common.strip_ansi(p.stdout.decode("utf8", "replace")), common.strip_ansi(p.stderr.decode("utf8", "replace"))
     except subprocess.TimeoutExpired:
